@@ -14,38 +14,20 @@ structure FmtFrag where
   newText : List Rune
   deriving DecidableEq, Repr, Inhabited
 
-def hexLower (n : Nat) : Rune := if n < 10 then 48 + n else 87 + n
+/-- `quoteString(lit)`: the inverse of `lexString` — a backslash before `\\`, `"` and newline -/
+def quoteString (lit : List Rune) : List Rune :=
+  [cQUOTE] ++ lit.flatMap (fun r => if r = cBSL ∨ r = cQUOTE ∨ r = cNL then [cBSL, r] else [r]) ++
+    [cQUOTE]
 
-/-- `strconv.appendEscapedRune(buf, r, '"', ASCIIonly=false, graphicOnly=false)` -/
-def quoteRune (cls : Cls) (r : Rune) : List Rune :=
-  if r = cQUOTE ∨ r = cBSL then [cBSL, r]
-  else if cls.isPrint r then [r]
-  else if r = 7 then [cBSL, 97]        -- \a
-  else if r = 8 then [cBSL, 98]        -- \b
-  else if r = 12 then [cBSL, 102]      -- \f
-  else if r = 10 then [cBSL, 110]      -- \n
-  else if r = 13 then [cBSL, 114]      -- \r
-  else if r = 9 then [cBSL, 116]       -- \t
-  else if r = 11 then [cBSL, 118]      -- \v
-  else if r < 32 ∨ r = 127 then [cBSL, 120, hexLower (r / 16 % 16), hexLower (r % 16)]
-  else
-    let r' := if validRune r then r else runeError
-    if r' < 0x10000 then
-      [cBSL, 117, hexLower (r' / 4096 % 16), hexLower (r' / 256 % 16), hexLower (r' / 16 % 16),
-        hexLower (r' % 16)]
-    else
-      [cBSL, 85, hexLower (r' / 268435456 % 16), hexLower (r' / 16777216 % 16),
-        hexLower (r' / 1048576 % 16), hexLower (r' / 65536 % 16), hexLower (r' / 4096 % 16),
-        hexLower (r' / 256 % 16), hexLower (r' / 16 % 16), hexLower (r' % 16)]
-
-/-- `fmt.Sprintf("%q", s)` = `strconv.Quote(s)` for a string that is the UTF-8 of `s` -/
-def goQuote (cls : Cls) (s : List Rune) : List Rune := [cQUOTE] ++ s.flatMap (quoteRune cls) ++ [cQUOTE]
+/-- `strings.ReplaceAll(lit, "/", "//")` -/
+def doubleSlashes (lit : List Rune) : List Rune :=
+  lit.flatMap fun r => if r = cSLASH then [cSLASH, cSLASH] else [r]
 
 /-- `tokenSource(tok)` -/
-def tokenSource (cls : Cls) (tok : Token) : List Rune :=
+def tokenSource (tok : Token) : List Rune :=
   match tok.ty with
-  | .string => goQuote cls tok.lit
-  | .regex => [cSLASH] ++ tok.lit ++ [cSLASH]
+  | .string => quoteString tok.lit
+  | .regex => [cSLASH] ++ doubleSlashes tok.lit ++ [cSLASH]
   | .description => [cPIPE, cSP] ++ tok.lit
   | .comment => [cSLASH, cSLASH] ++ tok.lit
   | .blockComment => [cSLASH, cSTAR] ++ tok.lit ++ [cSTAR, cSLASH]
@@ -88,9 +70,9 @@ def inlineComment : Option CommentNode → List Rune
   | some c => [cSP, cSLASH, cSLASH] ++ c.value
 
 /-- `singleLineTokens(src, parts...)` -/
-def singleLineFrag (cls : Cls) (indent : Nat) (src : SourceNode) (parts : List Token) : FmtFrag :=
+def singleLineFrag (indent : Nat) (src : SourceNode) (parts : List Token) : FmtFrag :=
   ⟨src.start.line, src.end_.line + 1,
-    tabs indent ++ (parts.flatMap (tokenSource cls) ++ inlineComment src.comment) ++ [cNL]⟩
+    tabs indent ++ (parts.flatMap tokenSource ++ inlineComment src.comment) ++ [cNL]⟩
 
 /-- `strings.Split(s, sep)` for a one-rune separator -/
 def splitOn (sep : Rune) : List Rune → List (List Rune)
@@ -99,6 +81,15 @@ def splitOn (sep : Rune) : List Rune → List (List Rune)
     match splitOn sep rs with
     | [] => [[]]   -- unreachable
     | l :: ls => if r = sep then [] :: l :: ls else (r :: l) :: ls
+
+/-- `strings.Fields(s)`: maximal runs of non-space runes.  `cur` is the word being read. -/
+def fieldsAux (cls : Cls) : List Rune → List Rune → List (List Rune)
+  | [], cur => if cur = [] then [] else [cur]
+  | r :: rs, cur =>
+    if cls.isSpace r then (if cur = [] then fieldsAux cls rs [] else cur :: fieldsAux cls rs [])
+    else fieldsAux cls rs (cur ++ [r])
+
+def fields (cls : Cls) (s : List Rune) : List (List Rune) := fieldsAux cls s []
 
 /-- `strings.TrimRight(s, " ")` -/
 def trimRightSpaces (s : List Rune) : List Rune := (s.reverse.dropWhile (· = cSP)).reverse
@@ -119,20 +110,20 @@ def rdWords (maxWidth : Int) : List (List Rune) → List (List Rune) → List Ru
       rdWords maxWidth ws (out ++ [pend]) word
     else rdWords maxWidth ws out (pend ++ [cSP] ++ word)
 
-def rdLines (cls : Cls) (maxWidth : Int) : List (List Rune) → Bool → RDState → RDState
-  | [], _, st => st
-  | line :: ls, isFirst, st =>
-    if !isFirst ∧ line.all cls.isSpace then
+def rdLines (cls : Cls) (maxWidth : Int) : List (List Rune) → RDState → RDState
+  | [], st => st
+  | line :: ls, st =>
+    if line.all cls.isSpace then        -- `strings.TrimSpace(line) == ""`
       let out1 := if st.pend ≠ [] then st.out ++ [st.pend] else st.out
-      let out2 := if !st.lastWasEmpty then out1 ++ [[]] else out1
-      rdLines cls maxWidth ls false ⟨out2, [], true⟩
+      let out2 := if !st.lastWasEmpty ∧ out1 ≠ [] then out1 ++ [[]] else out1
+      rdLines cls maxWidth ls ⟨out2, [], true⟩
     else
-      let (out, pend) := rdWords maxWidth (splitOn cSP line) st.out st.pend
-      rdLines cls maxWidth ls false ⟨out, pend, false⟩
+      let (out, pend) := rdWords maxWidth (fields cls line) st.out st.pend
+      rdLines cls maxWidth ls ⟨out, pend, false⟩
 
 /-- `reformatDescription(input, maxWidth)` -/
 def reformatDescription (cls : Cls) (input : List Rune) (maxWidth : Int) : List (List Rune) :=
-  let st := rdLines cls maxWidth (splitOn cNL input) true ⟨[], [], false⟩
+  let st := rdLines cls maxWidth (splitOn cNL input) ⟨[], [], false⟩
   if st.pend ≠ [] then st.out ++ [st.pend] else st.out
 
 /-- `multiLineToken(src, prefix, lines)` -/
@@ -162,15 +153,16 @@ def assignTokens (a : Assignment) : List Token :=
 
 /-- one step of `fmter.diffFile`: the fragment's edit and the new indent -/
 def fmtFragment (cls : Cls) (indent : Nat) : Fragment → FmtFrag × Nat
-  | .header h => (singleLineFrag cls indent h.src (headerTokens h), if h.isOpen then indent + 1 else indent)
+  | .header h => (singleLineFrag indent h.src (headerTokens h), if h.isOpen then indent + 1 else indent)
   | .close c =>
     let indent' := indent - 1        -- `p.indent--; if p.indent < 0 { p.indent = 0 }`
-    (singleLineFrag cls indent' ⟨c.span.start, c.span.end_, none⟩ [c.token], indent')
-  | .assign a => (singleLineFrag cls indent a.src (assignTokens a), indent)
+    (singleLineFrag indent' ⟨c.span.start, c.span.end_, none⟩ [c.token], indent')
+  | .assign a => (singleLineFrag indent a.src (assignTokens a), indent)
   | .desc d =>
-    (multiLineFrag indent d.span [cPIPE, cSP]
-      (reformatDescription cls d.value (80 - (indent : Int) * 4)), indent)
-  | .comment c => (singleLineFrag cls indent ⟨c.span.start, c.span.end_, none⟩ [c.token], indent)
+    let linesOut := reformatDescription cls d.value (80 - (indent : Int) * 4)
+    -- a description without text keeps its marker (fix 528f326)
+    (multiLineFrag indent d.span [cPIPE, cSP] (if linesOut = [] then [[]] else linesOut), indent)
+  | .comment c => (singleLineFrag indent ⟨c.span.start, c.span.end_, none⟩ [c.token], indent)
 
 /-- `fmter.diffFile(fragments)` -/
 def diffFile (cls : Cls) : Nat → List Fragment → List FmtFrag
